@@ -512,13 +512,17 @@ pub fn execute_c14_udp(plan: &Plan) -> Outcome {
     let port = plan.extra["port"].as_u64().unwrap_or(53) as u16;
     let sizes: Vec<usize> = serde_json::from_value(plan.extra["payloads"].clone()).unwrap_or_else(|_| vec![20]);
     let name_str = String::from_utf8(name.clone()).ok();
-    let target_ip = Ipv4Addr::new(127, 0, 14, 2);
+    // (IPv4 literals: an address with an octet that is an ASCII letter; a *related* address - the same letter in the other case,
+    // or one bit away - is served from the same application socket first, so that a relay that takes the two for one shows)
+    let target_ip = if kind == "ipv4" { Ipv4Addr::new(127, 0x4a, 14, 2) } else { Ipv4Addr::new(127, 0, 14, 2) };
+    let decoy_ip = if kind == "ipv4" { Some(if plan.seed % 2 == 0 { Ipv4Addr::new(127, 0x6a, 14, 2) } else { Ipv4Addr::new(127, 0x4b, 14, 2) }) } else { None };
     let datas: Vec<Vec<u8>> = sizes.iter().enumerate().map(|(i, s)| payload(3, i as u8, 0, *s)).collect();
     #[derive(Default, Clone)]
     struct SeenU {
         startup_err: Option<String>,
         target_recv: Vec<Vec<u8>>,
         other_recv: usize,
+        decoy_recv: Vec<Vec<u8>>,
         server_sends: Vec<(SocketAddr, usize)>,
         dns: Vec<String>,
     }
@@ -561,8 +565,27 @@ pub fn execute_c14_udp(plan: &Plan) -> Outcome {
                 *o2.lock().unwrap() += 1;
             }
         });
+        let decoy_got = Arc::new(Mutex::new(Vec::<Vec<u8>>::new()));
+        let d2 = decoy_got.clone();
+        let _decoy = spawn_scoped(async move {
+            let Some(ip) = decoy_ip else { return };
+            let Ok(u) = UdpSocket::bind(SocketAddr::new(IpAddr::V4(ip), port)).await else { return };
+            let mut buf = vec![0u8; 65536];
+            loop {
+                let Ok((n, _)) = u.recv_from(&mut buf).await else { return };
+                d2.lock().unwrap().push(buf[..n].to_vec());
+            }
+        });
         tokio::task::yield_now().await;
         let app = UdpSocket::bind(SocketAddr::new(IpAddr::V4(Ipv4Addr::LOCALHOST), 0)).await.unwrap();
+        if let Some(ip) = decoy_ip {
+            let mut dg = vec![0u8, 0, 0, 1];
+            dg.extend_from_slice(&ip.octets());
+            dg.extend_from_slice(&port.to_be_bytes());
+            dg.extend_from_slice(b"for-the-related-address");
+            let _ = app.send_to(&dg, SocketAddr::new(IpAddr::V4(Ipv4Addr::LOCALHOST), CLIENT_PORT)).await;
+            tokio::time::sleep(Duration::from_millis(300)).await;
+        }
         for d in &datas {
             let mut dg = vec![0u8, 0, 0];
             if kind == "ipv4" {
@@ -581,6 +604,7 @@ pub fn execute_c14_udp(plan: &Plan) -> Outcome {
         tokio::time::sleep(Duration::from_secs(2)).await;
         seen.target_recv = recv.lock().unwrap().clone();
         seen.other_recv = *other.lock().unwrap();
+        seen.decoy_recv = decoy_got.lock().unwrap().clone();
         seen.server_sends = world::with(|w| w.udp_sends.iter().filter(|s| s.node == rt::NODE_SERVER && s.to.port() != CLIENT_PORT && !(s.to.ip().is_loopback() && s.to.ip() == IpAddr::V4(Ipv4Addr::LOCALHOST))).map(|s| (s.to, s.len)).collect());
         seen.dns = world::with(|w| w.dns_queries.iter().filter(|q| q.node == rt::NODE_SERVER).map(|q| q.name.clone()).collect());
         drop(mains);
@@ -597,6 +621,15 @@ pub fn execute_c14_udp(plan: &Plan) -> Outcome {
         v.push(Violation::new("C14", format!("C14/udp-startup/{cell}"), e.clone()));
     } else {
         let want_addr = SocketAddr::new(IpAddr::V4(target_ip), port);
+        // what went to the related address is judged on its own: exactly its one datagram
+        let mut seen = seen.clone();
+        if let Some(ip) = decoy_ip {
+            let decoy_addr = SocketAddr::new(IpAddr::V4(ip), port);
+            seen.server_sends.retain(|(to, _)| *to != decoy_addr);
+            if seen.decoy_recv.iter().any(|d| d != b"for-the-related-address") || seen.decoy_recv.len() > 1 {
+                v.push(Violation::new("C14", sig("delivered-to-a-related-address"), format!("datagrams for {want_addr} and one for {decoy_addr} left one application socket; {decoy_addr} received {} datagrams ({:?} bytes), {want_addr} received {}", seen.decoy_recv.len(), seen.decoy_recv.iter().map(|d| d.len()).collect::<Vec<_>>(), seen.target_recv.len())));
+            }
+        }
         let dns_ok = if kind == "ipv4" { seen.dns.is_empty() } else { name_str.as_ref().is_some_and(|n| !seen.dns.is_empty() && seen.dns.iter().all(|q| q == n)) };
         let exact = dns_ok && seen.target_recv == datas && seen.server_sends.iter().all(|(to, _)| *to == want_addr) && seen.other_recv == 0;
         let nothing = seen.target_recv.is_empty() && seen.other_recv == 0 && seen.server_sends.is_empty() && (seen.dns.is_empty() || name_str.as_ref().is_some_and(|n| seen.dns.iter().all(|q| q == n)));
